@@ -28,6 +28,7 @@ enum Op {
   RemoveMethod(usize),
   Attach(usize, usize),
   Detach(usize, usize),
+  AttachFrag(usize, usize), // attach by fragment-only query
   InsertService(usize),
   RemoveService(usize),
 }
@@ -88,6 +89,18 @@ fn apply_model(m: &mut Model, op: Op) -> bool {
       }
       true
     }
+    Op::AttachFrag(i, r) => {
+      // the query is the fragment of id i: the first general-purpose method with that fragment is the one referenced
+      let frag = id(i)[id(i).rfind('#').unwrap()..].to_owned();
+      let s = match m.gm.iter().find(|x| x.ends_with(&frag)) {
+        Some(s) => s.clone(),
+        None => return false,
+      };
+      if !m.rel[r].iter().any(|(x, _)| x == &s) {
+        m.rel[r].push((s, false));
+      }
+      true
+    }
     Op::Detach(i, r) => {
       let s = id(i);
       if !m.gm.contains(&s) {
@@ -133,6 +146,7 @@ fn apply_doc(d: &mut CoreDocument, op: Op) -> bool {
     Op::RemoveMethod(i) => d.remove_method(&url(i)).is_some(),
     Op::Attach(i, r) => d.attach_method_relationship(&url(i), RELS[r]).is_ok(),
     Op::Detach(i, r) => d.detach_method_relationship(&url(i), RELS[r]).is_ok(),
+    Op::AttachFrag(i, r) => d.attach_method_relationship(format!("#{}", url(i).fragment().unwrap()).as_str(), RELS[r]).is_ok(),
     Op::InsertService(i) => d
       .insert_service(Service::builder(Object::new()).id(url(i)).type_("T").service_endpoint(Url::parse("https://example.com/").unwrap()).build().unwrap())
       .is_ok(),
@@ -157,6 +171,7 @@ fn tag(op: Op) -> &'static str {
     Op::RemoveMethod(..) => "[remove]",
     Op::Attach(..) => "[attach]",
     Op::Detach(..) => "[detach]",
+    Op::AttachFrag(..) => "[attach]",
     Op::InsertService(..) => "[insert-service]",
     Op::RemoveService(..) => "[remove-service]",
   }
@@ -178,6 +193,9 @@ pub fn document_ops(cex: &Value) -> Result<String, String> {
     universes.push((1, 5, 1, vec![Op::InsertMethod(0, 0), Op::Attach(0, 0), Op::Attach(0, 1), Op::Attach(0, 2), Op::Attach(0, 3), Op::Attach(0, 4)]));
     universes.push((3, 5, 2, vec![Op::InsertMethod(0, 0), Op::InsertMethod(2, 0)]));
     universes.push((3, 5, 2, vec![Op::InsertMethod(2, 0), Op::InsertMethod(0, 0)]));
+    universes.push((3, 5, 1, vec![Op::InsertMethod(0, 0), Op::InsertMethod(2, 1)]));
+    universes.push((3, 5, 1, vec![Op::InsertMethod(2, 0), Op::InsertMethod(0, 1)]));
+    universes.push((3, 5, 1, vec![Op::InsertMethod(2, 2), Op::InsertMethod(0, 0)]));
     for (n_ids, n_rels, depth, prefix) in universes {
     let mut ops = Vec::new();
     for i in 0..n_ids {
@@ -188,6 +206,9 @@ pub fn document_ops(cex: &Value) -> Result<String, String> {
       for r in 0..n_rels {
         ops.push(Op::Attach(i, r));
         ops.push(Op::Detach(i, r));
+        if !prefix.is_empty() && n_ids == 3 {
+          ops.push(Op::AttachFrag(i, r));
+        }
       }
       ops.push(Op::InsertService(i));
       ops.push(Op::RemoveService(i));
@@ -265,6 +286,22 @@ pub fn document_ops(cex: &Value) -> Result<String, String> {
                 let want = m2.rel[r].iter().any(|(x, _)| x == idstr) && any;
                 if d2.resolve_method(q, Some(MethodScope::VerificationRelationship(RELS[r]))).is_some() != want {
                   log.push(format!("[resolve] history {h:?}: resolve_method({q:?}, {:?}) wrong", RELS[r]));
+                }
+              }
+              if q == idstr.as_str() {
+                // the same lookups with the id as a typed DIDUrl (borrowed): the DID part must take part in the match
+                let typed = DIDUrl::parse(idstr).unwrap();
+                match d2.resolve_method(&typed, None) {
+                  Some(found) if found.id() != &typed => log.push(format!("[typed-query] history {h:?}: resolve_method(&DIDUrl {idstr}) returned {}", found.id())),
+                  Some(_) if !any => log.push(format!("[typed-query] history {h:?}: resolve_method(&DIDUrl {idstr}) found a method that is not there")),
+                  None if any => log.push(format!("[typed-query] history {h:?}: resolve_method(&DIDUrl {idstr}) found nothing")),
+                  _ => {}
+                }
+                if d2.resolve_service(&typed).map(|s| s.id() != &typed).unwrap_or(false) {
+                  log.push(format!("[typed-query] history {h:?}: resolve_service(&DIDUrl {idstr}) returned another service"));
+                }
+                if d2.resolve_service(&typed).is_some() != m2.svc.contains(idstr) {
+                  log.push(format!("[typed-query] history {h:?}: resolve_service(&DIDUrl {idstr}) wrong"));
                 }
               }
               if d2.resolve_service(q).is_some() != m2.svc.contains(idstr) {
